@@ -29,8 +29,9 @@ Judge(S) == viol' = viol \cup Broken(S)
 \* key hashes are logged as strings; "" = none
 FreshTr == [id |-> 0, ktx |-> [s \in Sides |-> ""], krx |-> [s \in Sides |-> ""], started |-> {}, rtpSeen |-> {}]
 
-DefaultCfg == [mode |-> "WebRtc", media |-> {"dc"}, bundle |-> "balanced", mux |-> "require", ice |-> "full",
-               latching |-> FALSE, compat |-> "Standard", offerer |-> "A", sched |-> "plain", reneg |-> "none"]
+DefaultCfg == [mode |-> "WebRtc", media |-> {"dc"}, bundle |-> "balanced", muxA |-> "require", muxB |-> "require",
+               ice |-> "full", latchingA |-> FALSE, latchingB |-> FALSE, compatA |-> "Standard",
+               compatB |-> "Standard", offerer |-> "A", sched |-> "plain", reneg |-> "none"]
 
 Blank(c) ==
     /\ cfg' = c
@@ -69,8 +70,10 @@ MediaOf(r) == (IF r.b1 THEN {"dc"} ELSE {}) \cup (IF r.b2 THEN {"audio"} ELSE {}
 \* reset: the configuration record of this run (the lattice point)
 TReset ==
     /\ Is("reset")
-    /\ LET c == [mode |-> Ev.site, media |-> MediaOf(Ev), bundle |-> Ev.x, mux |-> Ev.sig, ice |-> Ev.peer,
-                 latching |-> Ev.b4, compat |-> Ev.reason, offerer |-> Ev.inst,
+    \* evs = <<reneg, muxA, muxB, compatA, compatB, latchingA, latchingB>>
+    /\ LET c == [mode |-> Ev.site, media |-> MediaOf(Ev), bundle |-> Ev.x, muxA |-> Ev.evs[2], muxB |-> Ev.evs[3],
+                 ice |-> Ev.peer, latchingA |-> (Ev.evs[6] = "T"), latchingB |-> (Ev.evs[7] = "T"),
+                 compatA |-> Ev.evs[4], compatB |-> Ev.evs[5], offerer |-> Ev.inst,
                  sched |-> IF Ev.m = 1 THEN "slowSetRemote" ELSE "plain", reneg |-> Ev.evs[1]]
        IN /\ Blank(c)
           /\ viol' = Broken({<<"C10.Lattice", Compatible(c)>>})
